@@ -333,7 +333,7 @@ def parts(tier):
             name="maps",
             evaluate=evaluate,
             strategy=strategy,
-            budget={"quick": 1500, "thorough": 40000},
+            budget={"quick": 1500, "thorough": 120000},
             shards={"quick": 1, "thorough": 16},
             min_nontrivial={"quick": 170, "thorough": 4000},
         )
